@@ -163,6 +163,7 @@ static const uint32_t tp_event_to_ep_map[] = {
     TPDATA_FLAGS_SET(__u64, __ev, __fl);				\
 }
 #define TPDATA_F_DISABLED		(((uint64_t)1) << 63) /* Make sure that disabled event never call cb func. */
+#define TPDATA_F_TMR_REALTIME		(((uint64_t)1) << 62) /* Timer fd use CLOCK_REALTIME: can handle TP_FF_T_ABSTIME. */
 
 #endif /* Linux specific code. */
 
@@ -685,6 +686,19 @@ err_out_timer:
 		}
 
 		/* TP_CTL_ADD, TP_CTL_ENABLE */
+		ev_flags = ev->flags;
+		if (0 != tfd &&
+		    0 != (TP_FF_T_ABSTIME & ev->fflags) &&
+		    0 == (TPDATA_F_TMR_REALTIME & tp_udata->tpdata)) {
+			/* Absolute time on existing CLOCK_MONOTONIC timer:
+			 * create new one with proper clock. */
+			if (TP_CTL_ADD != op && 0 == ev_flags) { /* Keep remembered flags. */
+				ev_flags = (uint16_t)TPDATA_FLAGS_GET(tp_udata->tpdata, ev->event);
+			}
+			close(tfd); /* No need to epoll_ctl(EPOLL_CTL_DEL). */
+			tp_udata->tpdata = 0;
+			tfd = 0;
+		}
 		if (0 == tfd) { /* Create timer, if needed. */
 			tfd = timerfd_create(
 			    ((0 != (TP_FF_T_ABSTIME & ev->fflags)) ? CLOCK_REALTIME : CLOCK_MONOTONIC),
@@ -695,7 +709,10 @@ err_out_timer:
 				return (errno);
 			}
 			TPDATA_TFD_SET(tp_udata->tpdata, tfd);
-			TPDATA_EV_FL_SET(tp_udata->tpdata, ev->event, ev->flags); /* Remember original event and flags. */
+			TPDATA_EV_FL_SET(tp_udata->tpdata, ev->event, ev_flags); /* Remember original event and flags. */
+			if (0 != (TP_FF_T_ABSTIME & ev->fflags)) {
+				tp_udata->tpdata |= TPDATA_F_TMR_REALTIME;
+			}
 			/* Add to epoll. */
 			epev.events |= EPOLLIN; /* Not set EPOLLONESHOT, use timer control. */
 			if (0 != epoll_ctl((int)tp_udata->tpt->io_fd,
